@@ -1,4 +1,5 @@
 import RasnModel.Proofs.Pipeline
+import RasnModel.Gen.Imports
 /-
   C12 — modules compile independently of their neighbours (backend state part).
   The backend is a state machine over (tagging default, extensibility default); `generate_module`
@@ -30,5 +31,72 @@ theorem C12_state_after (gen : BState → Def β → Option String) (st : BState
 example : (generateAll (fun s (d : Def Unit) => some (toString s.ext)) ⟨0, false⟩
     [("A", [⟨"X", ⟨"A", 0, true⟩, ()⟩]), ("B", [⟨"Y", ⟨"B", 0, false⟩, ()⟩])]).2 =
     [Ev.emitted "A" "X" "true", Ev.emitted "B" "Y" "false"] := by decide
+
+/-! ### IMPORTS → use lines (Gen/Imports.lean mirrors the closure over `module.imports` in generate_module) -/
+
+section Uses
+open Gen.Imports Gen.Names
+
+/-- C12 (use lines): a clause that imports only type and value references becomes a use declaration of
+    exactly those symbols, in order — values in const case, types in title case — for any number of symbols -/
+theorem C12_use_exact : ∀ (ss : List (List Char)), plainSymbols ss = true → usagesOf ss = some (ss.map specSymbol) := by
+  intro ss
+  induction ss with
+  | nil => intro _; rfl
+  | cons s rest ih =>
+    intro h
+    simp only [plainSymbols, List.all_cons, Bool.and_eq_true, Bool.not_eq_true'] at h
+    obtain ⟨⟨⟨h1, h2⟩, h3⟩, hr⟩ := h
+    have ihr := ih (by simpa [plainSymbols] using hr)
+    simp only [usagesOf, h1, h2, Bool.or_self, Bool.false_eq_true, if_false, ihr, List.map_cons]
+    cases s with
+    | nil => simp at h3
+    | cons c cs =>
+      simp only [symbolUse, specSymbol]
+      by_cases hl : c.isLower = true
+      · simp [hl]
+      · have hu : c.isUpper = true := by
+          simp only [Bool.or_eq_true] at h3
+          rcases h3 with h | h
+          · exact absurd h hl
+          · exact h
+        simp [hl, hu]
+
+/-- the clause becomes a glob exactly when some symbol is parameterized or looks like a class -/
+theorem C12_glob_iff : ∀ (ss : List (List Char)), usagesOf ss = none ↔ ∃ s ∈ ss, containsBraces s = true ∨ classLike s = true := by
+  intro ss
+  induction ss with
+  | nil => simp [usagesOf]
+  | cons s rest ih =>
+    simp only [usagesOf]
+    by_cases hb : (containsBraces s || classLike s) = true
+    · simp only [hb, if_true, true_iff]
+      exact ⟨s, List.mem_cons_self, by simpa [Bool.or_eq_true] using hb⟩
+    · simp only [hb, Bool.false_eq_true, if_false]
+      have hb' : ¬ (containsBraces s = true ∨ classLike s = true) := by simpa [Bool.or_eq_true] using hb
+      cases hu : usagesOf rest with
+      | none =>
+        simp only [true_iff]
+        obtain ⟨x, hx, hp⟩ := ih.mp hu
+        exact ⟨x, List.mem_cons_of_mem _ hx, hp⟩
+      | some us =>
+        simp only [false_iff, reduceCtorEq]
+        rintro ⟨x, hx, hp⟩
+        rcases List.mem_cons.mp hx with rfl | hx'
+        · exact hb' hp
+        · have := ih.mpr ⟨x, hx', hp⟩
+          rw [hu] at this; cases this
+
+/-- one use line per IMPORTS clause, in clause order, naming the sibling module in snake case -/
+theorem C12_one_line_per_clause (w : Bool) (imports : List (List Char × List (List Char))) :
+    (useLines w imports).map (·.module) = imports.map (fun i => toSnake i.1) := by
+  simp [useLines, useLine, List.map_map, Function.comp]
+
+/-- non-vacuity, incl. a type named with capitals and a digit (not a class) -/
+example : usagesOf ["T1".toList, "limit-1".toList, "Plain-Type".toList] = some ["T1".toList, "LIMIT_1".toList, "PlainType".toList] := by decide
+example : usagesOf ["MY-CLASS".toList, "Plain".toList] = none := by decide
+
+
+end Uses
 
 end Props.C12
